@@ -609,6 +609,29 @@ def w_flow_numeric(t, lows):
     return reader
 
 
+def flow_rule6(w):
+    got = F.flow_decode(w.mp_nlri(2, 133), F.IPV6, bool)
+    if got[0] != 'rule':
+        raise O.Malformed('flow-nlri-' + got[0])
+    return {c[1]: c for c in got[2]}
+
+
+def w_flow6_numeric(t, lows):
+    """the same for an IPv6 flow (RFC 8956)"""
+    def reader(w, v):
+        comps = flow_rule6(w)
+        if t not in comps or comps[t][0] != 'ops':
+            raise Missing('flow component %d not sent' % t)
+        ops = comps[t][2]
+        if len(ops) != len(lows):
+            raise Missing('flow component %d has %d terms' % (t, len(ops)))
+        out = []
+        for i, ((a, low), (ga, glow, width, value, first)) in enumerate(zip(lows, ops)):
+            out += [('.and%d' % i, ga, a), ('.operator%d' % i, glow, low), ('value%d' % i, value, v[i])]
+        return out
+    return reader
+
+
 def w_flow_prefix(t):
     def reader(w, v):
         comps = flow_rule(w)
@@ -795,6 +818,11 @@ case('flow/destination-mask', 'destination', lambda v: flow_words(['destination'
      quick=False, **FLOW)
 case('flow/redirect', 'redirect', lambda v: flow_words(SRC, ['redirect', (v[0], ':', v[1]), ';']), [('as', rng(0, M32)), ('number', rng(0, M32))],
      w_flow_redirect, rfc=as_number_pair, **FLOW)
+FLOW6 = dict(section='flow', fam=('ipv6 flow',), famcode=(2, 133), shapes=NOAP, api='flow')
+SRC6 = ['source', '2001:db8::/32', ';']
+# RFC 8956 3.1 / RFC 8955 4.2.2.11: the traffic class is one octet
+case('flow/traffic-class', 'traffic-class', lambda v: flow_words(SRC6 + ['traffic-class', (v[0],), ';']), [('class', rng(0, 255))], w_flow6_numeric(11, [(0, EQ)]), **FLOW6)
+case('flow/flow-label', 'flow-label', lambda v: flow_words(SRC6 + ['flow-label', (v[0],), ';']), [('label', rng(0, M20))], w_flow6_numeric(13, [(0, EQ)]), quick=False, **FLOW6)
 case('flow/mark', 'mark', lambda v: flow_words(SRC, ['mark', (v[0],), ';']), [('dscp', rng(0, 63))], w_flow_mark, **FLOW)
 
 
@@ -1268,6 +1296,94 @@ SEQ_ACTIONS = [  # (then-words, the 8-octet extended communities of RFC 8955 sec
 ]
 
 
+OTHER_FAMILY_FIRST = [
+    # (section, text of the definition given first, section, words of the definition under test)
+    ('static', 'route 2001:db8::/32 next-hop 2001:db8::1', 'flow', 'route { match { source 10.0.0.0/24 ; protocol tcp ; } then { discard ; } }'),
+    ('static', 'route 10.0.0.0/24 next-hop 1.2.3.4', 'flow', 'route { match { source 2001:db8::/32 ; next-header tcp ; } then { discard ; } }'),
+    ('flow', 'route { match { source 2001:db8::/32 ; } then { discard ; } }', 'flow', 'route { match { source 10.0.0.0/24 ; protocol udp ; } then { discard ; } }'),
+    ('static', 'route 10.0.0.0/24 next-hop 1.2.3.4', 'static', 'route 2001:db8::/32 next-hop 2001:db8::1'),
+]
+
+
+def h_other_family_first(ctx):
+    """A definition of one address family, then a definition of the other, given to ONE configuration object (successive API
+    commands; successive sections of a file).  Whether the second is accepted does not depend on the first: each of the
+    second definitions here is valid on its own and must be accepted."""
+    s1, first, s2, second = OTHER_FAMILY_FIRST[ctx.choice('pair', len(OTHER_FAMILY_FIRST))]
+    alone = parse_text(ctx, s2, second.split(' '))
+    ctx.check('valid-on-its-own', alone[0] == 'accept', sig='C18:other-family-first:harness:second-definition-refused-on-its-own', info={'text': second, 'outcome': str(alone)[:200]})
+    out1 = parse_text(ctx, s1, first.split(' '))
+    ctx.check('first-accepted', out1[0] == 'accept', sig='C18:other-family-first:harness:first-definition-refused', info={'text': first, 'outcome': str(out1)[:200]})
+    out2 = parse_text(ctx, s2, second.split(' '))
+    ctx.cover('accept' if out2[0] == 'accept' else 'refuse')
+    ctx.check('rfc-value-accepted', out2[0] == 'accept', sig='C18:other-family-first:valid-definition-refused-after-a-definition-of-the-other-family',
+              info={'first': first, 'then': second, 'outcome': str(out2)[:300]})
+    return [out1[0], out2[0]]
+
+
+def w_mixed_families(w, v):
+    """`attributes ... nlri <ipv4 prefix> <ipv6 prefix>`: each prefix is announced in its own family"""
+    if w.mp is None:
+        pid, mask, prefix = unicast4(w)
+        return [('.ipv4-prefix', bytes(prefix), bytes([10, 0, 0])), ('.ipv4-length', mask, 24)]
+    got = O.prefixes(w.mp_nlri(2, 1), 128, w.addpath, w.d)
+    if len(got) != 1:
+        raise Missing('%d NLRI sent' % len(got))
+    return [('.ipv6-prefix', bytes(got[0][2]), bytes.fromhex('20010db8')), ('.ipv6-length', got[0][1], 32)]
+
+
+ATTRIBUTES_NLRI = [  # (line, prefixes that can be sent with that next hop: (afi, length, first octets))
+    ('attributes next-hop 1.2.3.4 med 5 nlri 10.0.0.0/24 10.0.1.0/24', [(1, 24, bytes([10, 0, 0])), (1, 24, bytes([10, 0, 1]))]),
+    ('attributes next-hop 1.2.3.4 nlri 10.0.0.0/24 2001:db8::/32', [(1, 24, bytes([10, 0, 0])), (2, 32, bytes.fromhex('20010db8'))]),
+    ('attributes next-hop 1.2.3.4 nlri 2001:db8::/32 10.0.0.0/24', [(1, 24, bytes([10, 0, 0])), (2, 32, bytes.fromhex('20010db8'))]),
+    ('attributes next-hop 2001:db8::1 nlri 2001:db8::/32 2001:db8:1::/48', [(2, 32, bytes.fromhex('20010db8')), (2, 48, bytes.fromhex('20010db80001'))]),
+]
+
+
+def h_attributes_nlri(ctx):
+    """`announce attributes <attributes> nlri <prefix> <prefix> ...` (API.api_attributes -> Configuration.partial('static', ...)): one
+    route per prefix, each prefix announced in ITS family with the octets written.  A prefix whose family the next hop of the
+    line cannot serve is refused by the command (validate_announce); the others go out as written, and nothing else does."""
+    line, want = ATTRIBUTES_NLRI[ctx.choice('line', len(ATTRIBUTES_NLRI))]
+    shape = (True, True, False)
+    neg = mk_session(('ipv4 unicast', 'ipv6 unicast'), shape)
+    out = parse_text(ctx, 'static', line.split(' '))
+    info = {'text': line}
+    if out[0] != 'accept':
+        ctx.cover('refuse')
+        ctx.check('rfc-value-accepted', False, sig='C18:attributes-nlri:refused', info=dict(info, outcome=str(out)[:200]))
+        return ['refuse']
+    ctx.cover('accept')
+    sent = []
+    for route in out[1]:
+        if validate_announce_nlri(route.nlri, route.nexthop):
+            continue
+        try:
+            msgs = list(UpdateCollection([RoutedNLRI(route.nlri, route.nexthop)], [], route.attributes).messages(neg))
+        except Exception as exc:  # noqa: BLE001
+            ctx.check('accepted-definition-can-be-encoded', False, sig='C18:attributes-nlri:accepted-but-encode-raises:%s' % exc_name(exc), info=dict(info, raised=str(exc)[:200]))
+            return ['raise']
+        for m in msgs:
+            try:
+                w = W(ctx, m, shape, (1, 1))
+            except O.Malformed as bad:
+                ctx.check('well-formed', False, sig='C18:attributes-nlri:malformed-on-the-wire:%s' % bad.what, info=info)
+                return ['malformed']
+            if w.mp is None:
+                for pid, mask, prefix in O.prefixes(w.nlri, 32, False, w.d):
+                    sent.append((1, int(mask), bytes(prefix)))
+            else:
+                for pid, mask, prefix in O.prefixes(w.mp[3], 128 if w.mp[0] == 2 else 32, False, w.d):
+                    sent.append((int(w.mp[0]), int(mask), bytes(prefix)))
+    # whether a prefix of the other family than the next hop is sent at all is not judged here (C01): what IS sent is a prefix of
+    # the line in its own family, and the prefixes of the next hop's family all are
+    nh_family = 2 if ':' in line.split(' ')[2] else 1
+    must = [x for x in want if x[0] == nh_family]
+    ctx.check('every-prefix-in-its-own-family', all(x in want for x in sent) and all(x in sent for x in must), sig='C18:attributes-nlri:prefixes-on-the-wire-differ-from-the-text',
+              info=dict(info, sent=[(a, m, p.hex()) for a, m, p in sent], written=[(a, m, p.hex()) for a, m, p in want]))
+    return ['accept', len(sent)]
+
+
 def h_flow_sequence(ctx):
     """Three flow definitions given one after the other to ONE configuration object in one process (what a file with
     three routes, or three API commands, do): `then { X }`, `then { X Y }`, `then { X }`.  Every one of them is encoded
@@ -1369,5 +1485,7 @@ def units(tier):
     for group in SAMPLES:
         us.append(Unit(group, lambda ctx, g=group: h_samples(ctx, g), must_cover=('accept', 'refuse'), max_seconds=400, weight=30))
     us.append(Unit('static/one-definition-two-sessions', h_two_sessions, must_cover=('accept', 'aigp-session'), max_seconds=600, weight=60))
+    us.append(Unit('lexical/attributes-nlri', h_attributes_nlri, must_cover=('accept',), max_seconds=400, weight=20))
+    us.append(Unit('lexical/other-family-first', h_other_family_first, must_cover=('accept',), max_seconds=400, weight=20))
     us.append(Unit('lexical/flow/sequence', h_flow_sequence, must_cover=('accept',), max_seconds=400, weight=30))
     return us
